@@ -304,6 +304,7 @@ struct Dec {
   size_t pos = 0;
   Cat cat = Cat::None;
   uint64_t steps = 0;  // work counter (guards the harness against absurd counts)
+  uint64_t map_pairs_seen = 0;  // key/value pairs decoded on the wire (incl. repeated keys)
   // handle reference -> handle value; returns false for a resolution error
   std::function<bool(int64_t, int64_t*)> hresolve;
 
@@ -447,6 +448,7 @@ inline bool dec_payload(const Sch& s, uint8_t p, Dec& d, Val& out) {
         Val k, v;
         if (!refdec(s.kids[0], d, k)) return false;
         if (!refdec(s.kids[1], d, v)) return false;
+        d.map_pairs_seen++;
         bool dup = false;  // R5: a repeated key keeps the first value
         for (size_t j = 0; j + 1 < out.kids.size(); j += 2)
           if (out.kids[j] == k) { dup = true; break; }
